@@ -32,6 +32,7 @@ package gtree
 //@ channel errChan(e)
 //@   requires err [C14]: e != nil
 //@   records errSent := true
+//@   receives errRecv := true
 
 // ---- splitter (input_spliter.go)
 //@ func gtree.split
@@ -222,27 +223,46 @@ package gtree
 //@   carries errc: errChan
 //@   modifies maps, errSent
 
-// ---- walk stage (pipeline_tree_walker.go): not under contract. After a callback error the worker goes on with the next
-// root, which the callback protocol of the simple mode (walkCallback: never called again after an error) forbids; C05
-// is stated without the massive option.
+// ---- walk stage (pipeline_tree_walker.go): safety only. After a callback error a worker reports it and goes on with
+// the next root, and ten workers share the callback: "no callback after the first error" does not hold in the massive
+// mode (cbAfterFail may become true here), and C05 is stated without the massive option.
 //@ func gtree.defaultWalkerPipeline.walk
-//@   assumed
+//@   requires nn: dw != nil && dw.defaultWalkerSimple != nil && ctx != nil
 //@   param callback follows walkCallback
 //@   carries roots: grownChan($g)
+//@   carries errc: errChan
 //@   carries result0: errChan
-//@   modifies cbTrace, cbFailed, cbLastErr, errSent
+//@   modifies cbTrace, cbFailed, cbLastErr, cbAfterFail, errSent
+//@ closure gtree.defaultWalkerPipeline.walk#1
+//@   requires nn: dw != nil && dw.defaultWalkerSimple != nil && ctx != nil
+//@   modifies cbTrace, cbFailed, cbLastErr, cbAfterFail, errSent
+//@ func gtree.defaultWalkerPipeline.worker
+//@   requires nn: dw != nil && dw.defaultWalkerSimple != nil && ctx != nil && wg != nil
+//@   param callback follows walkCallback
+//@   carries roots: grownChan($g)
+//@   carries errc: errChan
+//@   modifies cbTrace, cbFailed, cbLastErr, cbAfterFail, errSent
 
 // ---- the tree (pipeline_tree.go)
 // pipelineTreeOK(t, cfg): t is the treePipeline that newTreePipeline builds for cfg.
-//@ pred pipelineTreeOK(t *treePipeline, cfg *config): t != nil && cfg != nil && cfg.ctx != nil && t.grower != nil && t.spreader != nil && t.mkdirer != nil && t.verifier != nil && t.walker != nil && (cfg.encode != encodeDefault ==> isType(t.grower, nopGrowerPipeline)) && (cfg.encode == encodeDefault ==> isType(t.grower, defaultGrowerPipeline) && as(t.grower, defaultGrowerPipeline).defaultGrowerSimple != nil && as(t.grower, defaultGrowerPipeline).defaultGrowerSimple.lastNodeFormat == cfg.lastNodeFormat && as(t.grower, defaultGrowerPipeline).defaultGrowerSimple.intermedialNodeFormat == cfg.intermedialNodeFormat && (cfg.dryrun ==> as(t.grower, defaultGrowerPipeline).defaultGrowerSimple.enabledValidation)) && (cfg.dryrun ==> isType(t.spreader, colorizeSpreaderPipeline) && as(t.spreader, colorizeSpreaderPipeline).colorizeSpreaderSimple != nil && colorizeOK(as(t.spreader, colorizeSpreaderPipeline).colorizeSpreaderSimple) && as(t.spreader, colorizeSpreaderPipeline).colorizeSpreaderSimple.fileConsiderer.extensions == cfg.fileExtensions) && (!cfg.dryrun && !(cfg.encode >= encodeJSON && cfg.encode <= encodeTOML) ==> isType(t.spreader, defaultSpreaderPipeline) && as(t.spreader, defaultSpreaderPipeline).defaultSpreaderSimple != nil) && (!cfg.dryrun && cfg.encode >= encodeJSON && cfg.encode <= encodeTOML ==> isType(t.spreader, formattedSpreaderPipeline)) && isType(t.mkdirer, defaultMkdirerPipeline) && as(t.mkdirer, defaultMkdirerPipeline).defaultMkdirerSimple != nil && as(t.mkdirer, defaultMkdirerPipeline).defaultMkdirerSimple.fileConsiderer != nil && as(t.mkdirer, defaultMkdirerPipeline).defaultMkdirerSimple.fileConsiderer.extensions == cfg.fileExtensions && as(t.mkdirer, defaultMkdirerPipeline).defaultMkdirerSimple.targetDir == (len(cfg.targetDir) != 0 ? cfg.targetDir : ".") && isType(t.verifier, defaultVerifierPipeline) && as(t.verifier, defaultVerifierPipeline).defaultVerifierSimple != nil && as(t.verifier, defaultVerifierPipeline).defaultVerifierSimple.strict == cfg.strictVerify && as(t.verifier, defaultVerifierPipeline).defaultVerifierSimple.targetDir == (len(cfg.targetDir) != 0 ? cfg.targetDir : ".") && isType(t.walker, defaultWalkerPipeline)
+//@ pred pipelineTreeOK(t *treePipeline, cfg *config): t != nil && cfg != nil && cfg.ctx != nil && t.grower != nil && t.spreader != nil && t.mkdirer != nil && t.verifier != nil && t.walker != nil && (cfg.encode != encodeDefault ==> isType(t.grower, nopGrowerPipeline)) && (cfg.encode == encodeDefault ==> isType(t.grower, defaultGrowerPipeline) && as(t.grower, defaultGrowerPipeline).defaultGrowerSimple != nil && as(t.grower, defaultGrowerPipeline).defaultGrowerSimple.lastNodeFormat == cfg.lastNodeFormat && as(t.grower, defaultGrowerPipeline).defaultGrowerSimple.intermedialNodeFormat == cfg.intermedialNodeFormat && (cfg.dryrun ==> as(t.grower, defaultGrowerPipeline).defaultGrowerSimple.enabledValidation)) && (cfg.dryrun ==> isType(t.spreader, colorizeSpreaderPipeline) && as(t.spreader, colorizeSpreaderPipeline).colorizeSpreaderSimple != nil && colorizeOK(as(t.spreader, colorizeSpreaderPipeline).colorizeSpreaderSimple) && as(t.spreader, colorizeSpreaderPipeline).colorizeSpreaderSimple.fileConsiderer.extensions == cfg.fileExtensions) && (!cfg.dryrun && !(cfg.encode >= encodeJSON && cfg.encode <= encodeTOML) ==> isType(t.spreader, defaultSpreaderPipeline) && as(t.spreader, defaultSpreaderPipeline).defaultSpreaderSimple != nil) && (!cfg.dryrun && cfg.encode >= encodeJSON && cfg.encode <= encodeTOML ==> isType(t.spreader, formattedSpreaderPipeline)) && isType(t.mkdirer, defaultMkdirerPipeline) && as(t.mkdirer, defaultMkdirerPipeline).defaultMkdirerSimple != nil && as(t.mkdirer, defaultMkdirerPipeline).defaultMkdirerSimple.fileConsiderer != nil && as(t.mkdirer, defaultMkdirerPipeline).defaultMkdirerSimple.fileConsiderer.extensions == cfg.fileExtensions && as(t.mkdirer, defaultMkdirerPipeline).defaultMkdirerSimple.targetDir == (len(cfg.targetDir) != 0 ? cfg.targetDir : ".") && isType(t.verifier, defaultVerifierPipeline) && as(t.verifier, defaultVerifierPipeline).defaultVerifierSimple != nil && as(t.verifier, defaultVerifierPipeline).defaultVerifierSimple.strict == cfg.strictVerify && as(t.verifier, defaultVerifierPipeline).defaultVerifierSimple.targetDir == (len(cfg.targetDir) != 0 ? cfg.targetDir : ".") && isType(t.walker, defaultWalkerPipeline) && as(t.walker, defaultWalkerPipeline).defaultWalkerSimple != nil
 
 //@ func gtree.newTreePipeline
 //@   requires nn: cfg != nil && cfg.ctx != nil
 //@   ensures pipeline [C07,C09,C12]: result != nil && isType(result, treePipeline) && fresh(result) && pipelineTreeOK(as(result, treePipeline), cfg)
 
-// handlePipelineErr waits (errgroup) for the error channels of all stages. Which error it returns is not modelled. Its
-// frame is empty: what the goroutines of a stage may modify is forgotten by the caller where the stage is started (and must
+// handlePipelineErr starts one errgroup task per error channel; a task returns the error it receives. What is proved
+// (under the trusted errgroup model): a nil result means that no task received an error from a stage (errRecv unchanged).
+// That an error sent by a stage is in fact received before the call returns is a statement about interleavings and is
+// not decided. What the goroutines of a stage may modify is forgotten by the caller where the stage is started (and must
 // be within the caller's modifies clause), and the callers read none of it afterwards.
 //@ func gtree.treePipeline.handlePipelineErr
-//@   assumed
-//@   modifies nothing
+//@   requires nn: ctx != nil
+//@   carries echs: errChan
+//@   modifies errRecv
+//@   ensures seen [C14,C12]: result == nil ==> errRecv == old(errRecv)
+//@ loop gtree.treePipeline.handlePipelineErr#loop1
+//@   invariant grp: eg != nil && ectx != nil && (!eg.failed ==> errRecv == old(errRecv))
+//@ closure gtree.treePipeline.handlePipelineErr#1
+//@   implements egTask
+//@   requires idx: 0 <= i && i < len(echs) && ectx != nil
